@@ -39,6 +39,7 @@ def registry : List Suite := [
   Suites.Loop.mkSuite "loop-magnet",
   Suites.Loop.mkSuite "private",
   Suites.Loop.mkSuite "crashpoints",
+  Suites.Loop.mkSuite "serve",
   Suites.Request.suite,
   Suites.Readpath.suite,
   Suites.WQ.suite,
